@@ -303,13 +303,84 @@ pub open spec fn agg_ok(rows: Seq<Row>, c: usize, bm: Option<&[bool]>, op: Aggre
         _ => (v is Null) == (n_live(rows, c, bm, n) == 0),
     }
 }
-pub open spec fn is_f64val(v: SqlValue) -> bool { numeric(v) }
-// simd_aggregate_f64: NOT under contract (floating-point kernels); assumed to satisfy the structural contract only
+// ---------------- float SIMD path: kernels and machine min / max as uninterpreted functions with ASSUMED algebra -------------
+pub uninterp spec fn f_inf() -> f64;
+pub uninterp spec fn f_neg_inf() -> f64;
+pub uninterp spec fn f_min(a: f64, b: f64) -> f64;
+pub uninterp spec fn f_max(a: f64, b: f64) -> f64;
+pub uninterp spec fn k_sum(s: Seq<f64>) -> f64;
+#[verifier::external_body] fn finf() -> (r: f64) ensures r == f_inf() { f64::INFINITY }
+#[verifier::external_body] fn fneginf() -> (r: f64) ensures r == f_neg_inf() { f64::NEG_INFINITY }
+#[verifier::external_body] fn f64_min(a: f64, b: f64) -> (r: f64) ensures r == f_min(a, b) { a.min(b) }
+#[verifier::external_body] fn f64_max(a: f64, b: f64) -> (r: f64) ensures r == f_max(a, b) { a.max(b) }
+/// left folds of the machine min / max
+pub open spec fn fold_fmin(s: Seq<f64>, acc: f64) -> f64 decreases s.len() { if s.len() == 0 { acc } else { f_min(fold_fmin(s.drop_last(), acc), s.last()) } }
+pub open spec fn fold_fmax(s: Seq<f64>, acc: f64) -> f64 decreases s.len() { if s.len() == 0 { acc } else { f_max(fold_fmax(s.drop_last(), acc), s.last()) } }
+// ASSUMED: f64::min / f64::max are associative (true of IEEE minNum / maxNum up to the sign of zero and NaN payloads)
 #[verifier::external_body]
-fn simd_aggregate_f64(scan: &ColumnarScan, column_idx: usize, op: AggregateOp, filter_bitmap: Option<&[bool]>) -> (r: Result<SqlValue, ExecutorError>)
-    requires bm_ok(scan.rows@, filter_bitmap)
-    ensures r matches Ok(v) ==> agg_ok(scan.rows@, column_idx, filter_bitmap, op, v)
-{ unimplemented!() }
+pub proof fn f_minmax_assoc()
+    ensures forall|a: f64, b: f64, c: f64| #![trigger f_min(f_min(a, b), c)] f_min(f_min(a, b), c) == f_min(a, f_min(b, c)),
+            forall|a: f64, b: f64, c: f64| #![trigger f_max(f_max(a, b), c)] f_max(f_max(a, b), c) == f_max(a, f_max(b, c)),
+{}
+// the float kernels, NOT under contract: ASSUMED to be the fold of the machine operation over the batch, starting at its first element
+#[verifier::external_body]
+fn simd_sum_f64(column: &[f64]) -> (r: f64) ensures r == k_sum(column@) { unimplemented!() }
+#[verifier::external_body]
+fn simd_min_f64(column: &[f64]) -> (r: Option<f64>) ensures r is None <==> column@.len() == 0, r is Some ==> r.unwrap() == fold_fmin(column@.drop_first(), column@[0]) { unimplemented!() }
+#[verifier::external_body]
+fn simd_max_f64(column: &[f64]) -> (r: Option<f64>) ensures r is None <==> column@.len() == 0, r is Some ==> r.unwrap() == fold_fmax(column@.drop_first(), column@[0]) { unimplemented!() }
+
+/// the float views of the live cells of the first n rows, in row order
+pub open spec fn fvals(rows: Seq<Row>, c: usize, bm: Option<&[bool]>, n: int) -> Seq<f64> decreases n {
+    if n <= 0 { Seq::empty() } else if live(rows, c, bm, n - 1) { fvals(rows, c, bm, n - 1).push(to_f(cell(rows, c, n - 1).unwrap())) } else { fvals(rows, c, bm, n - 1) }
+}
+proof fn lemma_fvals_len(rows: Seq<Row>, c: usize, bm: Option<&[bool]>, n: int)
+    ensures fvals(rows, c, bm, n).len() == n_live(rows, c, bm, n), 0 <= n_live(rows, c, bm, n) <= (if n <= 0 { 0 } else { n })
+    decreases n
+{
+    if n > 0 { lemma_fvals_len(rows, c, bm, n - 1); }
+}
+/// folding a batch b into the running extreme: fold(a + b, acc) == op(fold(a, acc), kernel(b))
+proof fn lemma_fmax_flush(a: Seq<f64>, b: Seq<f64>, acc: f64)
+    requires b.len() > 0
+    ensures fold_fmax(a + b, acc) == f_max(fold_fmax(a, acc), fold_fmax(b.drop_first(), b[0]))
+    decreases b.len()
+{
+    f_minmax_assoc();
+    assert((a + b).drop_last() =~= a + b.drop_last());
+    assert((a + b).last() == b.last());
+    if b.len() == 1 {
+        assert(a + b.drop_last() =~= a);
+        assert(b.drop_first() =~= Seq::<f64>::empty());
+    } else {
+        lemma_fmax_flush(a, b.drop_last(), acc);
+        assert(b.drop_last().drop_first() =~= b.drop_first().drop_last());
+        assert(b.drop_last()[0] == b[0]);
+        assert(b.drop_first().last() == b.last());
+    }
+}
+proof fn lemma_fmin_flush(a: Seq<f64>, b: Seq<f64>, acc: f64)
+    requires b.len() > 0
+    ensures fold_fmin(a + b, acc) == f_min(fold_fmin(a, acc), fold_fmin(b.drop_first(), b[0]))
+    decreases b.len()
+{
+    f_minmax_assoc();
+    assert((a + b).drop_last() =~= a + b.drop_last());
+    assert((a + b).last() == b.last());
+    if b.len() == 1 {
+        assert(a + b.drop_last() =~= a);
+        assert(b.drop_first() =~= Seq::<f64>::empty());
+    } else {
+        lemma_fmin_flush(a, b.drop_last(), acc);
+        assert(b.drop_last().drop_first() =~= b.drop_first().drop_last());
+        assert(b.drop_last()[0] == b[0]);
+        assert(b.drop_first().last() == b.last());
+    }
+}
+
+
+//@@ simd_aggregate_f64
+
 
 //@@ can_use_simd_for_column
 
@@ -462,6 +533,53 @@ _I64_AFTER_FINAL = """
     }
 """
 
+_F64_INV = """
+            rows == scan.rows@, c == column_idx, bm == filter_bitmap,
+            0 <= count == fvals(rows, c, bm, en__ as int).len(), count <= en__,
+            batch@.len() < 1024, batch@.len() <= count,
+            batch@ =~= fvals(rows, c, bm, en__ as int).subrange(count - batch@.len(), count as int),
+            all_numeric(rows, c, bm, en__ as int),
+            op == AggregateOp::Min ==> min == fold_fmin(fvals(rows, c, bm, en__ as int).subrange(0, count - batch@.len()), f_inf()),
+            op == AggregateOp::Max ==> max == fold_fmax(fvals(rows, c, bm, en__ as int).subrange(0, count - batch@.len()), f_neg_inf()),
+"""
+_F64_AFTER_PUSH = """
+            proof {
+                let l0 = fvals(rows, c, bm, en__ as int - 1);
+                let l1 = fvals(rows, c, bm, en__ as int);
+                assert(l1 =~= l0.push(f64_value));
+                assert(batch@ =~= l1.subrange(count + 1 - batch@.len(), count as int + 1));
+                assert(l1.subrange(0, count + 1 - batch@.len()) =~= l0.subrange(0, count - (batch@.len() - 1)));
+            }
+"""
+_F64_FLUSH_HEAD = """
+                proof {
+                    let l1 = fvals(rows, c, bm, en__ as int);
+                    let k = count - batch@.len();
+                    assert(l1.subrange(0, k) + batch@ =~= l1.subrange(0, count as int));
+                    lemma_fmin_flush(l1.subrange(0, k), batch@, f_inf());
+                    lemma_fmax_flush(l1.subrange(0, k), batch@, f_neg_inf());
+                }
+"""
+_F64_AFTER_LOOP = """
+    proof { lemma_fvals_len(rows, c, bm, en__ as int); }
+    let ghost vals = fvals(rows, c, bm, en__ as int);
+    let ghost k0 = count - batch@.len();
+    proof {
+        assert(vals.subrange(0, k0) + batch@ =~= vals);
+        assert(vals.subrange(0, vals.len() as int) =~= vals);
+        assert(count == vals.len());
+        if batch@.len() > 0 {
+            lemma_fmin_flush(vals.subrange(0, k0), batch@, f_inf());
+            lemma_fmax_flush(vals.subrange(0, k0), batch@, f_neg_inf());
+        } else { assert(vals.subrange(0, k0) =~= vals); }
+    }
+"""
+
+
+def _f64_arm(m):
+    """`SqlValue::T(v) => *v as f64,` -> conversion stub of the payload type"""
+    return 'SqlValue::%s(v) => %s,' % (m.group(1), {'Float': 'f64_of_f32(*v)', 'Integer': 'f64_of_i64(*v)', 'Bigint': 'f64_of_i64(*v)', 'Smallint': 'f64_of_i16(*v)'}[m.group(1)])
+
 
 def _sum_arm(m):
     """`SqlValue::T(v) => sum += <v as f64>,` -> `SqlValue::T(v) => sum = fadd(sum, <conversion stub>),` (f64 `+=` and `as f64` are not interpreted)"""
@@ -584,6 +702,43 @@ ITEMS = {
         (fold_max(scan.rows@, column_idx, filter_bitmap, scan.rows@.len() as int) is None) == (n_live(scan.rows@, column_idx, filter_bitmap, scan.rows@.len() as int) == 0),
         fold_max(scan.rows@, column_idx, filter_bitmap, scan.rows@.len() as int) matches Some(v) ==> !(v is Null),
 """),
+    'simd_aggregate_f64': dict(
+        file=_SA, path='fn simd_aggregate_f64', ret='r',
+        rewrites=[_FOR_ENUM, _BM, _FMT,
+                  ('re', r'const BATCH_SIZE: usize = 1024;[^\n]*\n', '', 1), ('re', r'\bBATCH_SIZE\b', '1024', 2),
+                  ('re', r'let mut batch = Vec::with_capacity\(1024\);', 'let mut batch: Vec<f64> = Vec::with_capacity(1024);', 1),
+                  ('re', r'&batch\b', 'batch.as_slice()', 6),
+                  ('re', r'let mut sum = 0\.0f64;', 'let mut sum = fzero();', 1),
+                  ('re', r'f64::INFINITY', 'finf()', 1), ('re', r'f64::NEG_INFINITY', 'fneginf()', 1),
+                  ('re', r'\b(min|max)\.(min|max)\(', r'f64_\2(\1, ', 4),
+                  ('re', r'sum \+= (simd_sum_f64\([^;]*\));', r'sum = fadd(sum, \1);', 2),
+                  ('re', r'sum / count as f64', 'fdiv(sum, f64_of_i64(count))', 1),
+                  ('refn', r'SqlValue::(Float|Integer|Bigint|Smallint)\(v\) => \*v as f64,', _f64_arm, 4)],
+        loops={0: _IT_INV + _F64_INV + _IT_END},
+        proofs=[('@entry', 'let ghost rows = scan.rows@; let ghost c = column_idx; let ghost bm = filter_bitmap;'),
+                ('@loop0', 'proof { lemma_fvals_len(rows, c, bm, en__ as int); lemma_fvals_len(rows, c, bm, en__ as int + 1); }'),
+                ('after:batch.push(f64_value);', _F64_AFTER_PUSH),
+                ('after:if batch.len() >= 1024 {', _F64_FLUSH_HEAD),
+                ('@afterloop0', _F64_AFTER_LOOP)],
+        contract="""
+    requires bm_ok(scan.rows@, filter_bitmap), scan.rows@.len() < i64::MAX
+    ensures
+        // an error iff some selected non-NULL value is not numeric
+        r is Ok <==> all_numeric(scan.rows@, column_idx, filter_bitmap, scan.rows@.len() as int),
+        r matches Ok(v) ==> ({
+            let n = scan.rows@.len() as int;
+            let vals = fvals(scan.rows@, column_idx, filter_bitmap, n);
+            &&& vals.len() == n_live(scan.rows@, column_idx, filter_bitmap, n)
+            &&& match op {
+                AggregateOp::Count => v == SqlValue::Integer(vals.len() as i64),
+                _ => if vals.len() == 0 { v == SqlValue::Null } else { match op {
+                    AggregateOp::Min => v == SqlValue::Double(fold_fmin(vals, f_inf())),          // the machine minimum over ALL selected non-NULL values
+                    AggregateOp::Max => v == SqlValue::Double(fold_fmax(vals, f_neg_inf())),
+                    _ => v is Double,                                                            // SUM / AVG: batched float addition, value not specified
+                } },
+            }
+        }),
+"""),
     'can_use_simd_for_column': dict(
         file=_SA, path='fn can_use_simd_for_column', ret='r',
         rewrites=[('re', r'for \((\w+), (\w+)\) in (scan\.column\(column_idx\))\.enumerate\(\) \{',
@@ -662,6 +817,8 @@ OBLIGATIONS = {
     'lemma_fold_none_iff_no_live': ['post:fold_is_none_iff_no_live_value'],
     'can_use_simd_for_column': ['safety:no_panic_terminates'],
     'compute_columnar_aggregate': ['post:count_is_count_star__others_null_iff_no_non_null_value_on_every_path'],
+    'simd_aggregate_f64': ['post:count__null_iff_none__min_max_are_the_machine_fold_over_all_values__error_iff_non_numeric', 'safety:no_overflow_of_count', 'proof:loop_invariant_over_batches'],
+    'lemma_fvals_len': ['post'], 'lemma_fmax_flush': ['post:running_max_extends_over_a_batch_by_associativity'], 'lemma_fmin_flush': ['post:running_min_extends_over_a_batch_by_associativity'],
     'simd_aggregate_i64': ['post:count_sum_avg_min_max_over_selected_non_null_integers__null_iff_none__error_iff_non_integer', 'safety:no_overflow_of_i128_sum_and_i64_count', 'proof:loop_invariant_over_batches'],
     'lemma_ivals_len': ['post:ivals_length_is_live_count'], 'ssum_append': ['post:sum_of_concatenation'], 'ssum_bound': ['post:sum_bounded_by_length'], 'lemma_min_flush': ['post:running_min_extends_over_a_batch'], 'lemma_max_flush': ['post:running_max_extends_over_a_batch'],
 }
@@ -675,7 +832,9 @@ TRUSTED = [
     'external_body bm_get: bitmap.get(i).copied().unwrap_or(false); count_true: bitmap.iter().filter(|&&p| p).count() (iterator adapters are outside the Verus subset)',
     'precondition bm_ok: a filter bitmap has one entry per row (create_filter_bitmap(rows.len(), ..), not under contract); precondition rows.len() < i64::MAX (a Vec<Row> cannot be longer)',
     'external_body simd_sum_i64 / simd_min_i64 / simd_max_i64: the integer kernels BY THEIR CONTRACTS (exact sum; None iff empty else minimum / maximum), which unit A-simd proves on the real kernels',
-    'external_body simd_aggregate_f64: the floating-point batching driver is NOT under contract; ASSUMED: COUNT = number of selected non-NULL values, other aggregates NULL iff there is none (read off its code: same skeleton as simd_aggregate_i64). Its float kernels (simd_sum_f64 ..) are not under contract either',
+    'external_body simd_sum_f64 / simd_min_f64 / simd_max_f64: the float kernels are NOT under contract; ASSUMED: min / max return None iff the batch is empty, else the left fold of f64::min / f64::max over the batch starting at its first element; sum is an uninterpreted function of the batch',
+    'f_minmax_assoc (ASSUMED): f64::min / f64::max are associative (IEEE minNum / maxNum, up to the sign of zero and NaN payloads); finf / fneginf / f64_min / f64_max: f64::INFINITY, NEG_INFINITY, f64::min, f64::max as uninterpreted functions',
+    'SUM / AVG on the float driver: only "is a Double, NULL iff no value" is stated (batched float addition is not associative; no value-level spec)',
     'external_body i64_min / i64_max: std i64::min / i64::max; i64_cmp / i16_cmp: Ord::cmp on integers; f32_cmp / f64_cmp: partial_cmp(..).unwrap_or(Equal) on floats, only "is Less" is used (uninterpreted f32_lt / f64_lt)',
     'compare_for_min_max answers "not less" for every pair that is not two numerics of the same variant (strings, dates, mixed variants): MIN / MAX over such columns keep the FIRST value - stated as is (lt_spec), not judged',
     'R10 rewrite: for (i, x) in it.enumerate() desugared to its definition (loop / next / break with a usize counter)',
